@@ -3,6 +3,7 @@
 // code, 64 trampoline slots).  Build variant `.tls` defines
 // RLBOX_EMBEDDER_PROVIDES_TLS_STATIC_VARIABLES.
 #include "../sim/world_common.hpp"
+#include "../sim/aligned_new.hpp" // fresh heap blocks hold 0xA5: a member left unwritten by a constructor is visible, and the same in every execution
 #include "rlbox_dylib_sandbox.hpp"
 #include "rlbox_noop_sandbox.hpp"
 #include <memory>
@@ -385,8 +386,15 @@ struct Runner
       if (!sl.exists() || sl.stale)
         continue;
       bool unreg = sl.flag_unregistered();
-      if (unreg != !sl.live)
+      if (unreg != !sl.live) {
         c.violate("C13", std::string("owner_registered_flag_wrong@") + opn, "owner #%zu: model live=%d is_unregistered()=%d", i, (int)sl.live, (int)unreg);
+        if (!sl.live) {
+          // an owner that claims a registration it never had: its destructor cannot be trusted, leave it alone
+          (void)sl.a.release();
+          (void)sl.b.release();
+          (void)sl.v.release();
+        }
+      }
     }
     for (size_t s = 0; s < S.size() && !c.stop; s++) {
       if (!S[s].created)
@@ -687,6 +695,8 @@ struct Runner
           slots.push_back(std::move(n));
           if (slots.back().live)
             S[(size_t)slots.back().s].reg[slots.back().f] = (int)slots.size() - 1;
+          else if (!slots.back().stale)
+            c.probe("owner_move_constructed_from_inert_source");
           c.probe("owner_moved");
           break;
         }
